@@ -13,6 +13,8 @@ import sys
 import xml.etree.ElementTree as ET
 
 PY = "/venv/bin/python"
+# a seed written against an earlier HEAD whose lines a later repo fix rewrote is confirmed and detected on ITS base commit
+BASE = os.environ.get("SEED_BASE", "HEAD")
 
 
 def sh(cmd, **kw):
@@ -22,9 +24,9 @@ def sh(cmd, **kw):
 def verify(d, tag):
     wt = f"/tmp/vw_{tag}"
     sh(f"git -C /repo worktree remove --force {wt}")
-    r = sh(f"git -C /repo worktree add -q --detach {wt} HEAD")
+    r = sh(f"git -C /repo worktree add -q --detach {wt} {BASE}")
     assert r.returncode == 0, r.stderr
-    out = {"tag": tag}
+    out = {"tag": tag, "base": BASE}
     env = dict(os.environ, PYTHONPATH=wt, JAX_PLATFORMS="cpu")
     try:
         r0 = sh([PY, os.path.join(d, "demo.py")], env=env, cwd=wt, timeout=1800)
@@ -61,7 +63,7 @@ def detect(d, checks, tag="x"):
     itself - which background runs may be reading - is never modified."""
     wt = f"/tmp/dw_{tag}"
     sh(f"git -C /repo worktree remove --force {wt}")
-    r = sh(f"git -C /repo worktree add -q --detach {wt} HEAD")
+    r = sh(f"git -C /repo worktree add -q --detach {wt} {BASE}")
     assert r.returncode == 0, r.stderr
     res = {}
     try:
@@ -105,7 +107,7 @@ def process(prop, m, checks):
             "verify": "scratch worktree of /repo HEAD: demo.py without patch (exit 0 expected), git apply patch.diff, demo.py (non-zero expected), full pytest suite compared with BASELINE.json stable_pass",
             "detect": "quick tier of the listed checks with MC_REPO pointing at a scratch worktree holding the patch",
         },
-        "base_commit": sh("git -C /repo rev-parse --short HEAD").stdout.strip(),
+        "base_commit": sh(f"git -C /repo rev-parse --short {BASE}").stdout.strip(),
         "detection": dres,
         "detected_by": sorted(c for c, r in dres.items() if r["exit"] == 1),
         "kept": bool(v.get("confirmed")),
